@@ -2,27 +2,515 @@
 
 Decides: propagation on every result path (R1); push/pop typestate (R2); what propagation writes
 (R3); the frame's own reference seeds the dependency set (R4); resource handles are appended (R5).
+
+"Propagation" is an effect, not a spelling: a call of propagate_dependencies(caller, result) or the three
+statements it consists of written out in place (append the callee's reference to the caller's invocations, add
+its function reference to the caller's dependency set, merge the callee's dependency set into it).  Guards are
+read as facts established on branch edges ("there is no calling frame"), loops by what they walk, values by
+where they come from.
 """
 import ast
 
 from .. import astutil as A
 from ..fa import FA
+from ..loader import AnalysisError
+from .c15 import (FRAME, absent_edges, alias_text, batch_seqs, body_starts, call_batch_dispatch, enclosing_position, expand_alias, heads_of,
+                  is_calling_frame, not_edges, origins, position_loops, result_loops, result_name)
 
 RL = "runner_local"
+INV_LIST = ("invocation_metadata", "invocations")
+OWN_REF = ("invocation_metadata", "fn_reference_with_args")
 
 
-def _calls(fa, name):
-    return fa.calls(name)
+# =================================================================================================
+# propagation sites
+# =================================================================================================
+
+class Site:
+    """One place where a callee's provenance is written into a caller's memento."""
+
+    def __init__(self, anchor, inline, caller_src, caller, result, at, parts):
+        self.anchor = anchor          # AST node the obligations are keyed on
+        self.inline = inline          # written out in place (True) / a call of propagate_dependencies (False)
+        self.caller_src = caller_src  # the expression (as written) through which the caller's memento is reached
+        self.caller = caller          # expanded expression denoting the caller's memento (None: not recognisable)
+        self.result = result          # expanded expression denoting the callee's memento (None: not recognisable)
+        self.at = at
+        self.parts = parts            # node-id lists: [call] or [append, add, merge]
+
+    def part(self, k):
+        return self.parts[k] if len(self.parts) > 1 else self.parts[0]
+
+    def all_nodes(self):
+        return [i for p in self.parts for i in p]
 
 
-def _passes_unless_member(pd, adds):
+def _strip(e, attrs):
+    """X for an expression X.a.b (attrs = (a, b)); None if `e` does not end in that chain."""
+    for a in reversed(attrs):
+        if not (isinstance(e, ast.Attribute) and e.attr == a):
+            return None
+        e = e.value
+    return e
+
+
+def _single(e):
+    """x for {x} / [x] / (x,) / set([x]) / frozenset({x})."""
+    if isinstance(e, ast.Call) and isinstance(e.func, ast.Name) and e.func.id in ("set", "frozenset") and len(e.args) == 1 and not e.keywords:
+        e = e.args[0]
+    if isinstance(e, (ast.Set, ast.List, ast.Tuple)) and len(e.elts) == 1 and not isinstance(e.elts[0], ast.Starred):
+        return e.elts[0]
+    return None
+
+
+def set_updates(fa):
+    """[(node ids, receiver expression, kind, operand)] for every in-place growth of a set in the function:
+    kind 'elem' (s.add(x), s |= {x}, s.update({x}) — operand x) or 'union' (s |= t, s.update(t) — operand t)."""
+    out = []
+    for c in fa.calls():
+        if not isinstance(c.func, ast.Attribute) or len(c.args) != 1 or c.keywords or not fa.nodes(c):
+            continue
+        if c.func.attr == "add":
+            out.append((fa.nodes(c), c.func.value, "elem", c.args[0]))
+        elif c.func.attr == "update":
+            x = _single(c.args[0])
+            out.append((fa.nodes(c), c.func.value, "elem" if x is not None else "union", x if x is not None else c.args[0]))
+    for s in fa.stmts(ast.AugAssign):
+        if isinstance(s.op, ast.BitOr) and fa.nodes(s):
+            x = _single(s.value)
+            out.append((fa.nodes(s), s.target, "elem" if x is not None else "union", x if x is not None else s.value))
+    # s |= a | b  ==  s |= a; s |= b
+    flat = []
+    for (ids, r, kind, x) in out:
+        parts = [x]
+        while kind == "union" and any(isinstance(p, ast.BinOp) and isinstance(p.op, ast.BitOr) for p in parts):
+            parts = [q for p in parts for q in ((p.left, p.right) if isinstance(p, ast.BinOp) and isinstance(p.op, ast.BitOr) else (p,))]
+        for p in parts:
+            y = _single(p) if kind == "union" else None
+            flat.append((ids, r, "elem" if y is not None else kind, y if y is not None else p))
+    return flat
+
+
+def _pd_params(ck):
+    """(caller, callee) parameter names of propagate_dependencies: the roles are positional."""
+    f = ck.repo.try_func(RL + ".propagate_dependencies")
+    ps = f.params if f is not None else []
+    return (ps[0], ps[1]) if len(ps) >= 2 else ("caller_memento", "result_memento")
+
+
+def prop_sites(fa):
+    sites = []
+    P_CALLER, P_RESULT = _pd_params(fa.ck)
+    for c in fa.calls("propagate_dependencies"):
+        ids = fa.nodes(c)
+        if not ids:
+            continue
+        cm = A.arg_or_kw(c, 0, P_CALLER)
+        rm = A.arg_or_kw(c, 1, P_RESULT)
+        sites.append(Site(c, False, cm, fa.expand(cm, ids[0]) if cm is not None else None, fa.expand(rm, ids[0]) if rm is not None else None, ids[0], [ids]))
+    ups = None
+    for c in fa.calls("append"):
+        ids = fa.nodes(c)
+        recv = A.call_recv(c)
+        if not ids or recv is None or len(c.args) != 1:
+            continue
+        X = _strip(expand_alias(fa, recv, ids[0]), INV_LIST)
+        if X is None:
+            continue
+        Y = _strip(expand_alias(fa, c.args[0], ids[0]), OWN_REF)
+        adds, merges = [], []
+        if Y is not None:
+            xt, yt = A.norm(X) + ".function_dependencies", A.norm(Y)
+            ups = set_updates(fa) if ups is None else ups
+            for (nids, r, kind, operand) in ups:
+                if alias_text(fa, r, nids[0]) != xt:
+                    continue
+                ot = alias_text(fa, operand, nids[0])
+                if kind == "elem" and ot == yt + ".invocation_metadata.fn_reference_with_args.fn_reference":
+                    adds += nids
+                elif kind == "union" and ot == yt + ".function_dependencies":
+                    merges += nids
+        sites.append(Site(c, True, recv, X, Y, ids[0], [ids, adds, merges]))
+    return sites
+
+
+def _is_frame_memento(fa, e, at):
+    return e is not None and isinstance(e, ast.Attribute) and e.attr == "memento" and fa.xnorm(e.value, at) == FRAME
+
+
+def feeding_calls(fa, expr, at, name, _seen=None):
+    """[(call, node id where it is evaluated)] for the calls of `name` the value of `expr` at `at` was computed from."""
+    seen = _seen if _seen is not None else set()
+    out = []
+    for n in A.walk_local(expr):
+        if isinstance(n, ast.Call) and A.call_attr(n) == name:
+            out.append((n, at))
+        elif isinstance(n, ast.Name) and isinstance(n.ctx, ast.Load):
+            for d in fa.df.reaching(at, n.id):
+                if d.kind == "assign" and d.value is not None and (d.node, d.name) not in seen:
+                    seen.add((d.node, d.name))
+                    out += feeding_calls(fa, d.value, d.node, name, seen)
+    return out
+
+
+def _escapes(fa, starts, sites, extra_removed, edge_ok, targets, include_start=True):
+    """Can a path from `starts` reach one of `targets` without performing the whole propagation (every one of its
+    parts at some site) and without passing `extra_removed`?  Returns the part index that can be skipped, or None."""
+    for k in range(3):
+        removed = set(extra_removed)
+        for s in sites:
+            removed |= set(s.part(k))
+        r = fa.cfg.reach(starts, removed=removed, edge_ok=edge_ok, include_start=include_start)
+        if set(targets) & r:
+            return k, removed
+    return None
+
+
+# =================================================================================================
+# R1
+# =================================================================================================
+
+def _r1_batch(ck, R1):
+    br = FA(ck, RL + ".LocalRunnerBackend.batch_run")
+    seqs = batch_seqs(br)
+    ploops = position_loops(br, seqs)
+    sites = prop_sites(br)
+    runs = [c for c in br.calls("memento_run_local") if br.nodes(c)]
+    # the element loop(s): position loops that fill the result list, run an element or propagate one
+    loops = result_loops(br, ploops, result_name(br), also=runs + [s.anchor for s in sites])
+    ck.need(loops, "batch_run: no loop over the input positions found")
+    no_caller = absent_edges(br, is_calling_frame(br))
+    edge_ok = not_edges(no_caller)
+    run_nodes = set(br.nodes_all(runs))
+    for (loop_ast, _p) in loops:
+        heads = heads_of(br, loop_ast)
+        starts = body_starts(br, heads)
+        esc = _escapes(br, starts, sites, run_nodes, edge_ok, heads)
+        ck.paths_enumerated += 1
+        wit = ""
+        if esc is not None:
+            pth = None
+            for h in heads:
+                pth = pth or br.cfg.path(starts[0], h, esc[1], edge_ok) if starts else None
+            wit = br.cfg.describe_path(pth or [])
+        ck.ob(R1, br.key(loop_ast, "iteration-propagates"), esc is None,
+              "every iteration propagates provenance (served hit) or runs memento_run_local" if esc is None else
+              "an iteration can finish without recording the sub-call in the calling frame: provenance depends on what was memoized "
+              "(witness %s)" % wit, br.where(loop_ast))
+    for s in sites:
+        okc = _is_frame_memento(br, s.caller, s.at) and "call:get_calling_frame" in br.deps(s.caller, s.at)
+        okr = False
+        if s.result is not None:
+            # the element's own memento out of the bulk answer
+            home = enclosing_position(br, ploops, s.anchor)
+            dr = br.deps(s.result, s.at)
+            okr = (home is not None and home[1].elem_role(seqs, s.result, s.at) == "bulk") \
+                or ("op:subscript" in dr and any(d.startswith("call:get_mementos") for d in dr))
+        oki = all(s.parts)
+        ck.ob(R1, br.key(s.anchor, "args"), okc and okr and oki, "propagates the stored memento into the calling frame's memento" if okc and okr and oki else
+              "batch pre-check propagates the wrong mementos (caller=%s, result=%s)" % (A.norm(s.caller), A.norm(s.result)) if oki else
+              "the propagation written out in batch_run is incomplete (invocation appended, but the callee's reference / its dependency set is "
+              "not added to the caller's dependencies)", br.where(s.anchor))
+
+
+class FrameScope:
+    """Where memento_run_local keeps its frame on the stack.  Plain form: push_frame / pop_frame in the function
+    itself (a try/finally).  Scoped form: `with C(...)` on a class of the same module whose __enter__ pushes a frame
+    it was given and whose __exit__ pops — the `with` statement then guarantees that __exit__ runs on every way out
+    of the block once __enter__ returned, so the exit-time obligations are decided on __exit__ (and the entry-time
+    ones on __enter__), with the class's fields read as the constructor arguments they were bound to."""
+
+    def __init__(self, ck, rl):
+        self.rl = rl
+        self.ck = ck
+        self.scoped = False
+        self.sub = {}
+        self.fa = rl         # the function that pops and propagates
+        self.enter = None
+        self.with_stmt = None
+        self.pushes = rl.calls("push_frame")
+        if self.pushes:
+            self.pops = rl.calls("pop_frame")  # none at all: reported by R2 (frame never popped)
+            self.starts = rl.nodes_all(self.pushes)
+            self.include_start = False
+            return
+        mod = rl.fi.qual.split(".")[0]
+        for w in rl.stmts(ast.With):
+            for it in w.items:
+                c = it.context_expr
+                if not (isinstance(c, ast.Call) and isinstance(c.func, ast.Name) and rl.nodes(w)):
+                    continue
+                fis = [ck.repo.try_func("%s.%s.%s" % (mod, c.func.id, m)) for m in ("__init__", "__enter__", "__exit__")]
+                if any(f is None for f in fis):
+                    continue
+                init, en, ex = (FA(ck, f) for f in fis)
+                if not en.calls("push_frame"):
+                    continue
+                # fields bound (once, unconditionally) to constructor parameters -> the actual arguments, in rl's terms
+                params = init.fi.params[1:]
+                for st in init.stmts(ast.Assign):
+                    if len(st.targets) == 1 and isinstance(st.targets[0], ast.Attribute) and A.dotted(st.targets[0].value) == "self" \
+                            and isinstance(st.value, ast.Name) and st.value.id in params and init.enclosing(st, (ast.If, ast.For, ast.While, ast.Try)) is None:
+                        actual = A.arg_or_kw(c, params.index(st.value.id), st.value.id)
+                        if actual is not None:
+                            self.sub["self." + st.targets[0].attr] = rl.xnorm(actual, rl.nodes(w)[0])
+                rebound = [t for f in (en, ex) for st in f.stmts((ast.Assign, ast.AugAssign)) for t in (st.targets if isinstance(st, ast.Assign) else [st.target])
+                           if isinstance(t, ast.Attribute) and ("self." + t.attr) in self.sub and A.dotted(t.value) == "self"]
+                ck.need(not rebound, "%s: rebinds the fields it was constructed with" % c.func.id)
+                self.scoped, self.fa, self.enter, self.with_stmt = True, ex, en, w
+                self.pushes = en.calls("push_frame")
+                self.pops = ex.calls("pop_frame")
+                self.starts = [ex.cfg.entry]
+                self.include_start = True
+                return
+        raise AnalysisError("%s: expected push_frame call, found none" % rl.qual)
+
+    def text(self, fa, e, at):
+        """Normalised expansion of `e`, in memento_run_local's terms."""
+        t = fa.xnorm(e, at)
+        if fa is not self.rl:
+            import re
+            for k in sorted(self.sub, key=len, reverse=True):
+                t = re.sub(r"(?<![\w.])" + re.escape(k) + r"(?![\w])", lambda m, k=k: self.sub[k], t)
+        return t
+
+    def pushed(self):
+        fa = self.enter if self.scoped else self.rl
+        pushed = {self.text(fa, p.args[0], fa.nodes(p)[0]) for p in self.pushes if p.args and fa.nodes(p)}
+        self.ck.need(len(pushed) == 1, "memento_run_local: push_frame is not called with one identifiable frame")
+        return pushed.pop()
+
+
+def _r1_run_local(ck, R1):
+    rl = FA(ck, RL + ".memento_run_local")
+    sc = FrameScope(ck, rl)
+    fa = sc.fa
+    pop_nodes = fa.nodes_all(sc.pops)
+    sites = prop_sites(fa)
+    PUSHED = sc.pushed()
+    no_caller = absent_edges(fa, lambda e, n: sc.text(fa, e, n) == FRAME)
+    edge_ok = not_edges(no_caller)
+    exits = [fa.cfg.exit, fa.cfg.raise_exit]
+    bad = None
+    for p in sc.starts:
+        if _escapes(fa, [p], sites, (), edge_ok, exits, include_start=sc.include_start) is not None:
+            bad = p
+    ck.paths_enumerated += len(sc.starts)
+    ck.ob(R1, rl.key(None, "exit-propagates"), bad is None and bool(sites),
+          "every exit after the push propagates stack_frame.memento to the caller (if any)" if bad is None and sites else
+          "memento_run_local can exit without propagating its memento to the calling frame", rl.where())
+    lookups = {}
+    for s in sites:
+        okc = s.caller is not None and isinstance(s.caller, ast.Attribute) and s.caller.attr == "memento" and sc.text(fa, s.caller.value, s.at) == FRAME \
+            and s.result is not None and sc.text(fa, s.result, s.at) == PUSHED + ".memento" and all(s.parts)
+        # pop precedes the propagation
+        okp = all(fa.cfg.must_pass(pop_nodes, i) for i in s.all_nodes())
+        ck.ob(R1, fa.key(s.anchor, "args"), okc and okp, "after the pop, stack_frame.memento is propagated into the new top frame" if okc and okp else
+              "propagation in memento_run_local does not pass (calling_frame.memento, stack_frame.memento) after the pop", fa.where(s.anchor))
+        # the caller is looked up after the pop: every get_calling_frame() the caller memento is computed from
+        if s.caller_src is not None:
+            for i in s.part(0):
+                for (call, n) in feeding_calls(fa, s.caller_src, i, "get_calling_frame"):
+                    ent = lookups.setdefault(id(call), [call, True])
+                    ent[1] = ent[1] and fa.cfg.must_pass(pop_nodes, n)
+    for (call, okq) in lookups.values():
+        ck.ob(R1, fa.key(call, "lookup-after-pop"), okq, "the caller is looked up after the own frame was popped" if okq else
+              "the calling frame is looked up before the own frame is popped: the function would propagate into itself", fa.where(call))
+    # served path: the frame's memento is replaced by the stored memento before returning
+    served = [r for r in rl.returns() if r.value is not None and rl.nodes(r) and "call:process_existing_memento" in rl.deps(r.value)]
+    ck.need(served, "memento_run_local: no 'served from store' return found")
+
+    def stored(e, at):
+        lv = origins(rl, e, at)
+        return bool(lv) and all(isinstance(x, ast.Call) and A.call_attr(x) == "get_memento" and A.norm(A.call_recv(x)) == "storage_backend" for (x, _n) in lv)
+    asg = [s for s in rl.stmts(ast.Assign) if rl.nodes(s) and any(isinstance(t, ast.Attribute) and rl.xnorm(t, rl.nodes(s)[0]) == PUSHED + ".memento" for t in s.targets)
+           and stored(s.value, rl.nodes(s)[0]) and (sc.with_stmt is None or rl.inside(s, sc.with_stmt))]
+    for r in served:
+        oks = bool(asg) and all(rl.cfg.must_pass(rl.nodes_all(asg), i) for i in rl.nodes(r))
+        ck.ob(R1, rl.key(None, "served-memento-replaces"), oks, "the stored memento (with its stored dependency set) is what propagates" if oks else
+              "a served result propagates the fresh, empty frame memento instead of the stored one: transitive dependencies are lost", rl.where(r))
+
+
+# =================================================================================================
+# R2
+# =================================================================================================
+
+def _r2(ck, R2):
+    rl = FA(ck, RL + ".memento_run_local")
+    sc = FrameScope(ck, rl)
+    pushes = sc.pushes
+    if not sc.scoped:
+        push_nodes = rl.nodes_all(pushes)
+        pop_nodes = rl.nodes_all(sc.pops)
+        exits = [rl.cfg.exit, rl.cfg.raise_exit]
+        okt = True
+        why = ""
+        for pc in pushes:
+            trys = [t for t in rl.stmts(ast.Try) if t.finalbody and any(rl.inside(pc, b) for b in t.body)]
+            has_pop = any(any(isinstance(n, ast.Call) and A.call_attr(n) == "pop_frame" for s in t.finalbody for n in A.walk_local(s)) for t in trys)
+            if not has_pop:
+                okt = False
+                why = "push_frame is not inside the try whose finally pops"
+        ck.ob(R2, rl.key(None, "push-in-try"), okt, "push is protected by try/finally-pop" if okt else why, rl.where(pushes[0]))
+        leak = None
+        for p in push_nodes:
+            r = rl.cfg.reach([p], removed=pop_nodes, include_start=False)
+            if set(exits) & r:
+                leak = p
+        # no pop without push
+        unp = [i for i in pop_nodes if not rl.cfg.must_pass(push_nodes, i)]
+    else:
+        en, ex = sc.enter, sc.fa
+        push_nodes = en.nodes_all(pushes)
+        pop_nodes = ex.nodes_all(sc.pops)
+        # __enter__ returns only with the frame pushed (once); if it fails after the push, the frame is popped again
+        en_pops = en.nodes_all(en.calls("pop_frame"))
+        okt = bool(push_nodes) and en.cfg.must_pass(push_nodes, en.cfg.exit) \
+            and not any(set(push_nodes) & en.cfg.reach([p], include_start=False) for p in push_nodes) \
+            and not any(en.cfg.exit in en.cfg.reach([q], include_start=False) for q in en_pops)
+        ck.ob(R2, rl.key(None, "push-in-try"), okt, "the frame is pushed by the scope's __enter__, whose __exit__ the with statement guarantees" if okt else
+              "the scope's __enter__ can return without having pushed the frame exactly once", en.where())
+        leak = None
+        for p in push_nodes:
+            if en.cfg.raise_exit in en.cfg.reach([p], removed=en_pops, include_start=False):
+                leak = p
+        # __exit__ pops on every path, exactly once
+        if not (ex.cfg.must_pass(pop_nodes, ex.cfg.exit) and ex.cfg.must_pass(pop_nodes, ex.cfg.raise_exit)):
+            leak = ex.cfg.entry
+        unp = [i for i in pop_nodes if set(pop_nodes) & ex.cfg.reach([i], include_start=False)]
+    ck.ob(R2, rl.key(None, "balanced"), leak is None and not unp,
+          "every path after the push pops exactly the pushed frame; no pop without push" if leak is None and not unp else
+          ("a path leaves memento_run_local with the frame still on the stack" if leak is not None else
+           "a pop can execute on a path that never pushed"), rl.where())
+    # the pushed frame is the StackFrame built (once) for this invocation's own reference
+    sf = [c for c in rl.calls("StackFrame") if rl.nodes(c)]
+    oksf = len(sf) == 1
+    if oksf:
+        ref = A.arg_or_kw(sf[0], 0, "fn_reference_with_args")
+        oksf = ref is not None and rl.xnorm(ref, rl.nodes(sf[0])[0]) == "fn_reference_with_args"
+        if sc.scoped:
+            oksf = oksf and sc.pushed() == rl.xnorm(sf[0], rl.nodes(sf[0])[0])
+        else:
+            for p in pushes:
+                lv = origins(rl, p.args[0], rl.nodes(p)[0]) if p.args and rl.nodes(p) else []
+                oksf = oksf and bool(lv) and all(x is sf[0] for (x, _n) in lv)
+    ck.ob(R2, rl.key(None, "frame-identity"), oksf, "the pushed frame is the frame of this invocation" if oksf else
+          "the pushed frame is not the StackFrame built for this invocation", rl.where())
+
+
+# =================================================================================================
+# R3
+# =================================================================================================
+
+def _passes_unless_member(pd, add_nodes, elems):
     """Every path to the exit performs the add, except paths on which a test established that the
     element is already a member (adding would be a no-op)."""
-    elems = {A.norm(c.args[0]) for c in adds if c.args}
+    elems = set(elems)
     member_tests = [n.id for n in pd.cfg.nodes if n.kind == "test" and isinstance(n.ast, ast.Compare) and len(n.ast.ops) == 1
                     and isinstance(n.ast.ops[0], ast.In) and A.norm(n.ast.left) in elems]
-    r = pd.cfg.reach([pd.cfg.entry], removed=pd.nodes_all(adds), edge_ok=lambda s, d, l: not (s in member_tests and l == "T"))
+    r = pd.cfg.reach([pd.cfg.entry], removed=add_nodes, edge_ok=lambda s, d, l: not (s in member_tests and l == "T"))
     return pd.cfg.exit not in r
+
+
+def _r3(ck, R3):
+    pd = FA(ck, RL + ".propagate_dependencies")
+    P_CALLER, P_RESULT = _pd_params(ck)
+    CALLER_DEPS = "attr:%s.function_dependencies" % P_CALLER
+    app = [c for c in pd.calls("append") if pd.nodes(c) and c.args and A.call_recv(c) is not None
+           and "attr:%s.invocation_metadata.invocations" % P_CALLER in pd.deps(A.call_recv(c))]
+    ok1 = bool(app) and all("attr:%s.invocation_metadata.fn_reference_with_args" % P_RESULT in pd.deps(c.args[0]) for c in app) \
+        and pd.cfg.must_pass(pd.nodes_all(app), pd.cfg.exit)
+    ck.ob(R3, pd.key(None, "appends-invocation"), ok1, "the callee's reference-with-arguments is appended to the caller's invocations" if ok1 else
+          "propagate_dependencies does not append the callee invocation to the caller's invocation list", pd.where())
+    ups = [(ids, r, kind, x) for (ids, r, kind, x) in set_updates(pd) if CALLER_DEPS in pd.deps(r, ids[0])]
+    adds = [(ids, x) for (ids, r, kind, x) in ups if kind == "elem"]
+    ok2 = bool(adds) and all("attr:%s.invocation_metadata.fn_reference_with_args.fn_reference" % P_RESULT in pd.deps(x, ids[0]) for (ids, x) in adds) \
+        and _passes_unless_member(pd, [i for (ids, x) in adds for i in ids], [A.norm(x) for (ids, x) in adds])
+    ck.ob(R3, pd.key(None, "adds-callee"), ok2, "the callee's function reference joins the caller's dependency set" if ok2 else
+          "propagate_dependencies does not add the callee's function reference to the caller's dependencies", pd.where())
+    merges = [ids for (ids, r, kind, x) in ups if kind == "union" and "attr:%s.function_dependencies" % P_RESULT in pd.deps(x, ids[0])]
+    okm = bool(merges) and pd.cfg.must_pass([i for ids in merges for i in ids], pd.cfg.exit)
+    ck.ob(R3, pd.key(None, "merges-transitive"), okm, "the callee's transitive dependencies are merged into the caller's on every path" if okm else
+          "propagate_dependencies can return without merging the callee's dependency set (early return / missing union): when the same function is "
+          "called twice with arguments that reach different functions, or recursively, transitive dependencies are lost", pd.where())
+
+
+# =================================================================================================
+# R4
+# =================================================================================================
+
+def _ctor_arg(ck, fa, call, init_qual, name):
+    """The (expanded) argument a constructor call binds to parameter `name`, keyword or positional."""
+    v = A.kwarg(call, name)
+    if v is None:
+        init = ck.repo.try_func(init_qual)
+        if init is not None:
+            params = [a.arg for a in init.node.args.posonlyargs + init.node.args.args][1:]
+            if name in params:
+                v = A.arg_or_kw(call, params.index(name), name)
+    return fa.expand(v, fa.nodes(call)[0]) if v is not None else None
+
+
+def _r4(ck, R4):
+    sfi = FA(ck, "call_stack.StackFrame.__init__")
+    OWN = sfi.fi.params[1] if len(sfi.fi.params) > 1 else "fn_reference_with_args"
+    mc = sfi.one([c for c in sfi.calls("Memento") if sfi.nodes(c)], "Memento(...) construction")
+    fd = _ctor_arg(ck, sfi, mc, "metadata.Memento.__init__", "function_dependencies")
+    if isinstance(fd, ast.Call) and isinstance(fd.func, ast.Name) and fd.func.id == "set" and len(fd.args) == 1 and isinstance(fd.args[0], (ast.List, ast.Tuple, ast.Set)):
+        fd = ast.Set(elts=fd.args[0].elts)
+    ok4 = isinstance(fd, ast.Set) and len(fd.elts) == 1 and A.norm(fd.elts[0]) == OWN + ".fn_reference"
+    ck.ob(R4, sfi.key(None, "self-in-deps"), ok4, "the dependency set starts as {own function reference}" if ok4 else
+          "a new frame's dependency set does not start as {its own function reference} (%s)" % A.norm(fd), sfi.where(mc))
+    im = sfi.one([c for c in sfi.calls("InvocationMetadata") if sfi.nodes(c)], "InvocationMetadata(...) construction")
+    IMI = "metadata.InvocationMetadata.__init__"
+    inv, res, fr = (_ctor_arg(ck, sfi, im, IMI, n) for n in ("invocations", "resources", "fn_reference_with_args"))
+    ok5 = isinstance(inv, ast.List) and not inv.elts and isinstance(res, ast.List) and not res.elts
+    ck.ob(R4, sfi.key(None, "fresh-lists"), ok5, "invocations and resources start as fresh empty lists" if ok5 else
+          "a new frame does not start with fresh empty invocation/resource lists", sfi.where(im))
+    ok6 = fr is not None and A.norm(fr) == OWN
+    ck.ob(R4, sfi.key(None, "own-reference"), ok6, "the memento records the invocation's own reference" if ok6 else
+          "the frame memento does not record the invocation's own reference", sfi.where(im))
+
+
+# =================================================================================================
+# R5
+# =================================================================================================
+
+def _r5(ck, R5):
+    rf = FA(ck, "resource_function.ResourceFunction.__call__")
+    RES = FRAME + ".memento.invocation_metadata.resources"
+    apps = [c for c in rf.calls("append") if rf.nodes(c) and len(c.args) == 1 and A.call_recv(c) is not None
+            and alias_text(rf, A.call_recv(c), rf.nodes(c)[0]) == RES]
+    no_caller = absent_edges(rf, is_calling_frame(rf))
+    rets = [r for r in rf.returns() if r.value is not None and rf.nodes(r)]
+    okr = bool(apps) and bool(rets)
+    if okr:
+        an = rf.nodes_all(apps)
+        # a handle is returned to a caller that has a frame only after it was appended to that frame's resources ...
+        live = rf.cfg.reach([rf.cfg.entry], removed=an, edge_ok=not_edges(no_caller))
+        okr = not (set(rf.nodes_all(rets)) & live)
+        # ... and what is appended is what is returned
+        with_caller = rf.cfg.reach([rf.cfg.entry], edge_ok=not_edges(no_caller))
+        appended = {rf.xnorm(c.args[0], rf.nodes(c)[0]) for c in apps}
+        for r in rets:
+            if set(rf.nodes(r)) & with_caller:
+                okr = okr and rf.xnorm(r.value, rf.nodes(r)[0]) in appended
+        ck.paths_enumerated += 2
+    ck.ob(R5, rf.key(None, "appends-handle"), okr, "the returned handle is appended to the calling frame's resources" if okr else
+          "a resource handle can be returned without being recorded in the calling frame's memento", rf.where())
+
+
+# =================================================================================================
+# R6
+# =================================================================================================
+
+def _r6(ck, R6):
+    cb = FA(ck, "base.MementoFunctionBase.call_batch")
+    _run, _seqs, _arg, elts = call_batch_dispatch(cb)
+    ok = bool(elts)
+    ck.ob(R6, cb.key(None, "dispatches-all-elements"), ok, "every requested element is submitted, duplicates included" if ok else
+          "call_batch does not submit exactly the reference list it built from kwargs_list (deduplicated / filtered / re-ordered): a body that "
+          "batches [a, b, a] gets two invocations recorded instead of three", cb.where())
 
 
 def check(ck):
@@ -36,182 +524,16 @@ def check(ck):
     ck.rule(R3, "propagate_dependencies appends the callee invocation, adds the callee reference and merges its dependency set", 3)
     ck.rule(R4, "a new frame's memento lists itself as dependency and starts with fresh invocation/resource lists", 3)
     ck.rule(R5, "resource functions append the handle to the calling frame on every path that returns it", 1)
-
-    # ---- R1 (batch_run)
-    br = FA(ck, RL + ".LocalRunnerBackend.batch_run")
-    loops = [n for n in br.cfg.nodes if n.kind == "for" and "enumerate" in A.norm(n.ast.iter)]
-    loop = br.one(loops, "element loop (for idx, f in enumerate(...))")
-    props = br.calls("propagate_dependencies")
-    runs = br.calls("memento_run_local")
-    def _is_frame_test(fa_, n_):
-        t_ = fa_.xnorm(n_.ast, n_.id)
-        return t_.endswith(("get_calling_frame()", "get_calling_frame() is not None")) and t_.startswith("CallStack.get()")
-
-    def _is_frame_memento(fa_, e_, at_):
-        return isinstance(e_, ast.Attribute) and e_.attr == "memento" and fa_.xnorm(e_.value, at_) == "CallStack.get().get_calling_frame()"
-
-    no_caller = [n.id for n in br.cfg.nodes if n.kind == "test" and _is_frame_test(br, n)]
-    removed = set(br.nodes_all(props)) | set(br.nodes_all(runs))
-    def edge_ok(s, d, l):
-        return not (s in no_caller and l == "F")
-    starts = [d for (d, l) in br.cfg.succ[loop.id] if l == "T"]
-    live = br.cfg.reach(starts, removed=removed, edge_ok=edge_ok)
-    ok = loop.id not in live
-    ck.paths_enumerated += 1
-    ck.ob(R1, br.key(loop.ast, "iteration-propagates"), ok,
-          "every iteration propagates provenance (served hit) or runs memento_run_local" if ok else
-          "an iteration can finish without recording the sub-call in the calling frame: provenance depends on what was memoized "
-          "(witness %s)" % br.cfg.describe_path(br.cfg.path(starts[0], loop.id, removed, edge_ok) or []), br.where(loop.ast))
-    for c in props:
-        cm = A.kwarg(c, "caller_memento") or (c.args[0] if c.args else None)
-        rm = A.kwarg(c, "result_memento") or (c.args[1] if len(c.args) > 1 else None)
-        okc = cm is not None and _is_frame_memento(br, cm, br.nodes(c)[0]) and "call:get_calling_frame" in br.deps(cm)
-        okr = rm is not None and "attr:existing_mementos" not in set() and ("op:subscript" in br.deps(rm)) and any(
-            d.startswith("call:get_mementos") for d in br.deps(rm))
-        ck.ob(R1, br.key(c, "args"), okc and okr, "propagates the stored memento into the calling frame's memento" if okc and okr else
-              "batch pre-check propagates the wrong mementos (caller=%s, result=%s)" % (A.norm(cm), A.norm(rm)), br.where(c))
-    # ---- R1 (memento_run_local)
-    rl = FA(ck, RL + ".memento_run_local")
-    pushes = rl.some(rl.calls("push_frame"), "push_frame call")
-    pops = rl.some(rl.calls("pop_frame"), "pop_frame call")
-    props2 = rl.calls("propagate_dependencies")
-    push_nodes = rl.nodes_all(pushes)
-    pop_nodes = rl.nodes_all(pops)
-    prop_nodes = rl.nodes_all(props2)
-    nc = [n.id for n in rl.cfg.nodes if n.kind == "test" and _is_frame_test(rl, n)]
-    sfc = rl.calls("StackFrame")
-    sfs = rl.stmt_of(sfc[0]) if len(sfc) == 1 else None
-    SF = sfs.targets[0].id if isinstance(sfs, ast.Assign) and isinstance(sfs.targets[0], ast.Name) and sfs.value is sfc[0] else None
-    ck.need(SF is not None, "memento_run_local: the invocation's StackFrame is not bound to a local")
-    exits = [rl.cfg.exit, rl.cfg.raise_exit]
-    bad = None
-    for p in push_nodes:
-        r = rl.cfg.reach([p], removed=prop_nodes, edge_ok=lambda s, d, l: not (s in nc and l == "F"), include_start=False)
-        if set(exits) & r:
-            bad = p
-    ck.paths_enumerated += len(push_nodes)
-    ck.ob(R1, rl.key(None, "exit-propagates"), bad is None and bool(props2),
-          "every exit after the push propagates stack_frame.memento to the caller (if any)" if bad is None and props2 else
-          "memento_run_local can exit without propagating its memento to the calling frame", rl.where())
-    for c in props2:
-        cm = A.kwarg(c, "caller_memento") or (c.args[0] if c.args else None)
-        rm = A.kwarg(c, "result_memento") or (c.args[1] if len(c.args) > 1 else None)
-        okc = cm is not None and _is_frame_memento(rl, cm, rl.nodes(c)[0]) and A.norm(rm) == SF + ".memento"
-        # pop precedes the caller lookup
-        okp = all(rl.cfg.must_pass(pop_nodes, i) for i in rl.nodes(c))
-        gl = [x for x in rl.calls("get_calling_frame")]
-        okg = all(rl.cfg.must_pass(pop_nodes, i) for x in gl for i in rl.nodes(x) if rl.fa_inside_finally(x)) if hasattr(rl, "fa_inside_finally") else True
-        ck.ob(R1, rl.key(c, "args"), okc and okp, "after the pop, stack_frame.memento is propagated into the new top frame" if okc and okp else
-              "propagation in memento_run_local does not pass (calling_frame.memento, stack_frame.memento) after the pop", rl.where(c))
-    # caller lookup in the finally happens after the pop
-    for st in rl.stmts(ast.Try):
-        for s in st.finalbody:
-            for n in A.walk_local(s):
-                if isinstance(n, ast.Call) and A.call_attr(n) == "get_calling_frame":
-                    okq = all(rl.cfg.must_pass(pop_nodes, i) for i in rl.nodes(n))
-                    ck.ob(R1, rl.key(n, "lookup-after-pop"), okq, "the caller is looked up after the own frame was popped" if okq else
-                          "the calling frame is looked up before the own frame is popped: the function would propagate into itself", rl.where(n))
-    # served path: frame's memento replaced by the stored memento before returning
-    served = [r for r in rl.returns() if r.value is not None and "call:process_existing_memento" in rl.deps(r.value)]
-    for r in served:
-        asg = [s for s in rl.stmts(ast.Assign) if any(A.dotted(t) == SF + ".memento" for t in s.targets)
-               and rl.xnorm(s.value).startswith("storage_backend.get_memento(")]
-        oks = bool(asg) and all(rl.cfg.must_pass(rl.nodes_all(asg), i) for i in rl.nodes(r))
-        ck.ob(R1, rl.key(None, "served-memento-replaces"), oks, "the stored memento (with its stored dependency set) is what propagates" if oks else
-              "a served result propagates the fresh, empty frame memento instead of the stored one: transitive dependencies are lost", rl.where(r))
-    ck.need(served, "memento_run_local: no 'served from store' return found")
-
-    # ---- R2
-    okt = True
-    why = ""
-    for pc in pushes:
-        trys = [t for t in rl.stmts(ast.Try) if t.finalbody and any(rl.inside(pc, b) for b in t.body)]
-        has_pop = any(any(isinstance(n, ast.Call) and A.call_attr(n) == "pop_frame" for s in t.finalbody for n in A.walk_local(s)) for t in trys)
-        if not has_pop:
-            okt = False
-            why = "push_frame is not inside the try whose finally pops"
-    ck.ob(R2, rl.key(None, "push-in-try"), okt, "push is protected by try/finally-pop" if okt else why, rl.where(pushes[0]))
-    leak = None
-    for p in push_nodes:
-        r = rl.cfg.reach([p], removed=pop_nodes, include_start=False)
-        if set(exits) & r:
-            leak = p
-    # no pop without push
-    unp = [i for i in pop_nodes if not rl.cfg.must_pass(push_nodes, i)]
-    ck.ob(R2, rl.key(None, "balanced"), leak is None and not unp,
-          "every path after the push pops exactly the pushed frame; no pop without push" if leak is None and not unp else
-          ("a path leaves memento_run_local with the frame still on the stack" if leak is not None else
-           "a pop can execute on a path that never pushed"), rl.where())
-    sf = [c for c in rl.calls("StackFrame")]
-    oksf = len(sf) == 1 and [A.norm(a) for a in sf[0].args][:1] == ["fn_reference_with_args"] and \
-        all(A.norm(p.args[0]) == SF for p in pushes if p.args)
-    ck.ob(R2, rl.key(None, "frame-identity"), oksf, "the pushed frame is the frame of this invocation" if oksf else
-          "the pushed frame is not the StackFrame built for this invocation", rl.where())
-
-    # ---- R3
-    pd = FA(ck, RL + ".propagate_dependencies")
-    app = [c for c in pd.calls("append") if "invocations" in A.norm(A.call_recv(c)) and "caller_memento" in A.norm(A.call_recv(c))]
-    ok1 = bool(app) and all("attr:result_memento.invocation_metadata.fn_reference_with_args" in pd.deps(c.args[0]) for c in app) \
-        and pd.cfg.must_pass(pd.nodes_all(app), pd.cfg.exit)
-    ck.ob(R3, pd.key(None, "appends-invocation"), ok1, "the callee's reference-with-arguments is appended to the caller's invocations" if ok1 else
-          "propagate_dependencies does not append the callee invocation to the caller's invocation list", pd.where())
-    adds = [c for c in pd.calls("add") if "attr:caller_memento.function_dependencies" in pd.deps(A.call_recv(c))]
-    ok2 = bool(adds) and all("attr:result_memento.invocation_metadata.fn_reference_with_args.fn_reference" in pd.deps(c.args[0]) for c in adds) \
-        and _passes_unless_member(pd, adds)
-    ck.ob(R3, pd.key(None, "adds-callee"), ok2, "the callee's function reference joins the caller's dependency set" if ok2 else
-          "propagate_dependencies does not add the callee's function reference to the caller's dependencies", pd.where())
-    merges = [s for s in pd.stmts(ast.AugAssign) if isinstance(s.op, ast.BitOr) and "attr:caller_memento.function_dependencies" in pd.deps(s.target)
-              and "attr:result_memento.function_dependencies" in pd.deps(s.value)]
-    merges += [c for c in pd.calls("update") if "attr:caller_memento.function_dependencies" in pd.deps(A.call_recv(c))
-               and c.args and "attr:result_memento.function_dependencies" in pd.deps(c.args[0])]
-    okm = bool(merges) and pd.cfg.must_pass(pd.nodes_all(merges), pd.cfg.exit)
-    ck.ob(R3, pd.key(None, "merges-transitive"), okm, "the callee's transitive dependencies are merged into the caller's on every path" if okm else
-          "propagate_dependencies can return without merging the callee's dependency set (early return / missing union): when the same function is "
-          "called twice with arguments that reach different functions, or recursively, transitive dependencies are lost", pd.where())
-
-    # ---- R4
-    sfi = FA(ck, "call_stack.StackFrame.__init__")
-    mc = sfi.one(sfi.calls("Memento"), "Memento(...) construction")
-    fd = A.kwarg(mc, "function_dependencies")
-    ok4 = isinstance(fd, ast.Set) and len(fd.elts) == 1 and A.norm(fd.elts[0]) == "fn_reference_with_args.fn_reference"
-    ck.ob(R4, sfi.key(None, "self-in-deps"), ok4, "the dependency set starts as {own function reference}" if ok4 else
-          "a new frame's dependency set does not start as {its own function reference} (%s)" % A.norm(fd), sfi.where(mc))
-    im = sfi.one(sfi.calls("InvocationMetadata"), "InvocationMetadata(...) construction")
-    inv, res, fr = A.kwarg(im, "invocations"), A.kwarg(im, "resources"), A.kwarg(im, "fn_reference_with_args")
-    ok5 = isinstance(inv, ast.List) and not inv.elts and isinstance(res, ast.List) and not res.elts
-    ck.ob(R4, sfi.key(None, "fresh-lists"), ok5, "invocations and resources start as fresh empty lists" if ok5 else
-          "a new frame does not start with fresh empty invocation/resource lists", sfi.where(im))
-    ok6 = fr is not None and A.norm(fr) == "fn_reference_with_args"
-    ck.ob(R4, sfi.key(None, "own-reference"), ok6, "the memento records the invocation's own reference" if ok6 else
-          "the frame memento does not record the invocation's own reference", sfi.where(im))
-
-    # ---- R5
-    rf = FA(ck, "resource_function.ResourceFunction.__call__")
-    apps = [c for c in rf.calls("append") if "resources" in A.norm(A.call_recv(c))]
-    FRAME_X = ("CallStack.get().get_calling_frame()", "CallStack.get().get_calling_frame() is not None")
-    tests = [n.id for n in rf.cfg.nodes if n.kind == "test" and rf.xnorm(n.ast, n.id) in FRAME_X]
-    rets = [r for r in rf.returns() if r.value is not None]
-    okr = bool(apps) and all(c.args and rf.xnorm(c.args[0]) == rf.xnorm(rets[0].value) for c in apps) if rets else False
-    if okr:
-        an = rf.nodes_all(apps)
-        live = rf.cfg.reach([rf.cfg.entry], removed=an, edge_ok=lambda s, d, l: not (s in tests and l == "F"))
-        okr = not (set(rf.nodes_all(rets)) & live) and "call:get_calling_frame" in rf.deps(A.call_recv(apps[0]))
-    ck.ob(R5, rf.key(None, "appends-handle"), okr, "the returned handle is appended to the calling frame's resources" if okr else
-          "a resource handle can be returned without being recorded in the calling frame's memento", rf.where())
+    ck.run(_r1_batch, ck, R1)
+    ck.run(_r1_run_local, ck, R1)
+    ck.run(_r2, ck, R2)
+    ck.run(_r3, ck, R3)
+    ck.run(_r4, ck, R4)
+    ck.run(_r5, ck, R5)
     # ---- R6: the batch entry point submits one call per requested element, in order, and the
     # recorded invocations are decoded one by one
     ck.rule("C10.R6", "call_batch dispatches exactly the list of references it built (one per element, duplicates included); "
                       "stored invocation lists are decoded element by element from their own state", 3)
-    cb = FA(ck, "base.MementoFunctionBase.call_batch")
-    fns = [s_ for s_ in cb.stmts(ast.Assign) if isinstance(s_.value, ast.ListComp) and A.norm(s_.value.generators[0].iter) == "kwargs_list"]
-    run = cb.calls("memento_run_batch")
-    ok = len(fns) == 1 and len(run) == 1 and isinstance(fns[0].targets[0], ast.Name)
-    if ok:
-        arg = A.kwarg(run[0], "fn_reference_with_args")
-        nm = fns[0].targets[0].id
-        ok = isinstance(arg, ast.Name) and arg.id == nm and all(len(cb.df.reaching(i, nm)) == 1 for i in cb.nodes(run[0])) and not fns[0].value.generators[0].ifs
-    ck.ob("C10.R6", cb.key(None, "dispatches-all-elements"), ok, "every requested element is submitted, duplicates included" if ok else
-          "call_batch does not submit exactly the reference list it built from kwargs_list (deduplicated / filtered / re-ordered): a body that "
-          "batches [a, b, a] gets two invocations recorded instead of three", cb.where())
+    ck.run(_r6, ck, "C10.R6")
     from .c11 import check_decoders_pure
     ck.run(check_decoders_pure, ck, "C10.R6")
